@@ -155,6 +155,9 @@ def scan(accumulator, seed, reduce=False, terminator=None):
     Returns:
         An observable sequence containing the accumulated values.
     """
+    # reduce is a flag: numpy.bool_, 0 and 1 mean the same as False and True
+    reduce = bool(reduce)
+
     def _scan(source):
         if isinstance(source, rs.MuxObservable):
             return scan_mux(accumulator, seed, reduce, terminator)(source)
